@@ -258,4 +258,46 @@ Section Proofs.
       destruct c; simpl in R; inversion R; subst; reflexivity.
     - rewrite coll_eq_abs, <- (coll_equal_cequiv_r _ _ _ CE (abs_map_nodup c)), <- coll_eq_abs. apply coll_eq_refl.
   Qed.
+
+  Theorem meta_irrelevant_eq_hash (c d : icoll L) (m1 m2 n1 n2 : option N) :
+    tgt_eq L (TColl L c m1) (TColl L d n1) = tgt_eq L (TColl L c m2) (TColl L d n2) /\
+    coll_eq L (coll_with_meta L c) d = coll_eq L c d /\
+    coll_eq L d (coll_with_meta L c) = coll_eq L d c /\
+    coll_eq L c (coll_with_meta L c) = true /\
+    coll_hash L (coll_with_meta L c) = coll_hash L c.
+  Proof.
+    destruct (with_meta_copy_equal_and_same_hash c d) as (A & B & C & D).
+    rewrite (coll_eq_refl c) in C.
+    exact (conj (meta_not_inspected c d m1 m2 n1 n2) (conj A (conj B (conj C D)))).
+  Qed.
 End Proofs.
+
+(** facts about the specification itself *)
+Theorem nonneg_index_is_clojure_index l i x : (0 <= i)%Z ->
+  py_nth l i = clj_nth l i /\ py_set l i x = clj_set l i x.
+Proof. intro H. exact (conj (py_nth_nonneg l i H) (py_set_nonneg l i x H)). Qed.
+
+Theorem spec_maps_modulo_permutation k v (l1 l2 : al) :
+  Permutation l1 l2 -> nodupk l1 = true ->
+  al_get k l1 = al_get k l2 /\ Permutation (al_set k v l1) (al_set k v l2) /\
+  Permutation (al_del k l1) (al_del k l2) /\ nodupk (al_set k v l1) = true /\ nodupk (al_del k l1) = true.
+Proof.
+  intros P N.
+  exact (conj (perm_al_get k l1 l2 P N) (conj (perm_al_set k v l1 l2 P N)
+        (conj (perm_al_del k l1 l2 P N) (conj (nodupk_al_set k v l1 N) (nodupk_al_del k l1 N))))).
+Qed.
+
+Theorem spec_sets_modulo_permutation x (l1 l2 : list elem) :
+  Permutation l1 l2 -> nodup l1 = true ->
+  mem x l1 = mem x l2 /\ Permutation (s_add x l1) (s_add x l2) /\ Permutation (s_del x l1) (s_del x l2) /\
+  nodup (s_add x l1) = true /\ nodup (s_del x l1) = true.
+Proof.
+  intros P N.
+  exact (conj (perm_mem x l1 l2 P) (conj (perm_s_add x l1 l2 P) (conj (perm_s_del x l1 l2 P N)
+        (conj (nodup_s_add x l1 N) (nodup_s_del x l1 N))))).
+Qed.
+
+Theorem key_equality_is_an_equivalence :
+  (forall a, keq a a = true) /\ (forall a b, keq a b = keq b a) /\
+  (forall a b c, keq a b = true -> keq b c = true -> keq a c = true).
+Proof. exact (conj keq_refl (conj keq_sym keq_trans)). Qed.
